@@ -310,9 +310,11 @@ class locale_loading_frame:
         from dateparser.data import language_locale_dict
         from dateparser.languages.loader import LocaleDataLoader
 
+        from standins.vocab import info_of
+
         def run():
             loader = LocaleDataLoader()
-            changed, leaked = [], []
+            changed, leaked, overlay_bad = [], [], []
             langs = [lg for lg, locs in language_locale_dict.items() if locs]
             for lg in langs:
                 mod = import_module("dateparser.data.date_translation_data." + lg)
@@ -327,6 +329,23 @@ class locale_loading_frame:
                 if mod.info != pristine:
                     changed.append(lg)
                 base = a if first == lg else b
+                # the regional locale sees the language's entries extended by its own additions
+                # (lists concatenated, nested tables merged key by key, scalars replaced):
+                # independent overlay of the data file, standins.vocab.info_of
+                regional = b if first == lg else a
+                want = info_of(locs[0])
+                for key, val in want.items():
+                    if key in ("name",):
+                        continue
+                    got = regional.info.get(key)
+                    if isinstance(val, dict) and isinstance(got, dict):
+                        ok = {k: list(v) if isinstance(v, list) else v for k, v in got.items()} == \
+                            {k: list(v) if isinstance(v, list) else v for k, v in val.items()}
+                    else:
+                        ok = got == val
+                    if not ok:
+                        overlay_bad.append("%s:%s" % (locs[0], key))
+                        break
                 # the plain-language locale sees exactly the language's own lists
                 for key, val in pristine.items():
                     if key in ("locale_specific",):
@@ -334,7 +353,7 @@ class locale_loading_frame:
                     if base.info.get(key) != val:
                         leaked.append("%s:%s" % (lg, key))
                         break
-            return changed, leaked, len(langs)
+            return changed, leaked, len(langs), overlay_bad
 
         return run, (), {}, {}
 
@@ -342,10 +361,11 @@ class locale_loading_frame:
     def post(case, g, out):
         if not out.ok:
             return {"no-exception": False}
-        changed, leaked, n = out.value
+        changed, leaked, n, overlay_bad = out.value
         return {"no-exception": True, "languages-covered": n >= 40,
                 "shared-language-data-unmodified": changed == [],
-                "no-regional-vocabulary-in-the-plain-language-locale": leaked == []}
+                "no-regional-vocabulary-in-the-plain-language-locale": leaked == [],
+                "regional-locale-is-the-language-extended-by-its-own-additions": overlay_bad == []}
 
 
 REVIEWED_WRITE_SITES = {
@@ -505,3 +525,114 @@ class locale_lazy_attributes:
 
 
 CONTRACTS += [locale_lazy_attributes]
+
+
+class settings_registry_separates:
+    """the Settings registry never hands one instance to two different settings dicts: after
+    `b = default.replace(mod_settings=B, **B)` an instance `a` obtained earlier for a different dict A
+    still carries A's values and A's record of what the caller supplied (`_mod_settings`, which
+    decides whether the locale's date order may replace DATE_ORDER).  Pairs chosen to look alike:
+    same effective values, or same text for values of different types."""
+
+    name = "conf.Settings/registry-separates-different-dicts"
+    func = "dateparser.conf.Settings.__new__ / get_key"
+    props = ["C03", "C02", "C07"]
+    concrete_samples = 1
+
+    @staticmethod
+    def cases():
+        P = [
+            ({"DATE_ORDER": "MDY"}, {"PREFER_LOCALE_DATE_ORDER": True}),
+            ({"DATE_ORDER": "MDY"}, {"PREFER_DATES_FROM": "current_period"}),
+            ({"RELATIVE_BASE": ["dt", "2020-01-01T00:00:00"]}, {"RELATIVE_BASE": "2020-01-01 00:00:00"}),
+            ({"PARSERS": ["relative-time"]}, {"PARSERS": "['relative-time']"}),
+            ({"SKIP_TOKENS": ["t"]}, {"SKIP_TOKENS": "['t']"}),
+            ({"REQUIRE_PARTS": []}, {"STRICT_PARSING": False}),
+            ({"CACHE_SIZE_LIMIT": 1000}, {"CACHE_SIZE_LIMIT": "1000"}),
+            ({"NORMALIZE": True}, {"RETURN_TIME_AS_PERIOD": False}),
+            ({"TIMEZONE": "UTC", "TO_TIMEZONE": "EST"}, {"TIMEZONE": "EST", "TO_TIMEZONE": "UTC"}),
+            ({"DEFAULT_LANGUAGES": ["en", "fr"]}, {"DEFAULT_LANGUAGES": ["fr", "en"]}),
+        ]
+        return [dict(A=a, B=b, order=o) for a, b in P for o in ("A-then-B", "B-then-A")]
+
+    @staticmethod
+    def setup(inp, case):
+        from contracts.c_total import _sv
+        from dateparser.conf import settings as default_settings
+
+        A = {k: _sv(v) for k, v in case["A"].items()}
+        B = {k: _sv(v) for k, v in case["B"].items()}
+        first, second = (A, B) if case["order"] == "A-then-B" else (B, A)
+
+        def run():
+            a = default_settings.replace(mod_settings=first, **first)
+            before = {k: getattr(a, k) for k in first}
+            b = default_settings.replace(mod_settings=second, **second)
+            return (a is b, {k: getattr(a, k) for k in first} == before == first,
+                    a._mod_settings == first, b._mod_settings == second,
+                    all(getattr(b, k) == v for k, v in second.items()))
+
+        return run, (), {}, {}
+
+    @staticmethod
+    def post(case, g, out):
+        if not out.ok:
+            return {"no-exception": False}
+        same, kept, mod_a, mod_b, b_ok = out.value
+        return {"no-exception": True,
+                "different-dicts-get-different-instances": not same,
+                "the-earlier-instance-keeps-its-values": kept,
+                "the-earlier-instance-keeps-its-record-of-supplied-keys": mod_a,
+                "the-later-instance-has-its-own-values": b_ok and mod_b}
+
+
+CONTRACTS += [settings_registry_separates]
+
+
+class get_dictionary_current_settings:
+    """Locale._get_dictionary(settings): the (cached, per-locale) dictionary object it returns reads
+    the settings of THIS call - SKIP_TOKENS and the regex-cache key - whichever settings an earlier
+    call built or used it with; for both NORMALIZE variants and several locales."""
+
+    name = "locale.Locale._get_dictionary/uses-the-current-settings"
+    func = "dateparser.languages.locale.Locale._get_dictionary"
+    props = ["C03"]
+    concrete_samples = 1
+
+    @staticmethod
+    def cases():
+        return [dict(lang=lg, NORMALIZE=n) for lg in ("en", "fr", "de", "ru", "zh") for n in (True, False)]
+
+    @staticmethod
+    def setup(inp, case):
+        from copy import deepcopy
+        from importlib import import_module
+
+        from dateparser.languages.locale import Locale
+        from pyvc.harness import make_settings
+
+        info = getattr(import_module("dateparser.data.date_translation_data." + case["lang"]), "info")
+        loc = Locale(case["lang"], language_info=deepcopy(info))
+        s1 = make_settings(NORMALIZE=case["NORMALIZE"], SKIP_TOKENS=["foo"], _registry_key="k1")
+        s2 = make_settings(NORMALIZE=case["NORMALIZE"], SKIP_TOKENS=["bar"], _registry_key="k2")
+
+        def run():
+            d1 = loc._get_dictionary(s1)
+            first = list(d1)[:1]
+            d2 = loc._get_dictionary(s2)
+            words = list(d2)
+            return first, d2._settings is s2, "bar" in words, "foo" in words
+
+        return run, (), {}, {}
+
+    @staticmethod
+    def post(case, g, out):
+        if not out.ok:
+            return {"no-exception": False}
+        first, is_s2, has_bar, has_foo = out.value
+        return {"no-exception": True, "first-call-sees-its-skip-tokens": first == ["foo"],
+                "dictionary-carries-the-current-settings": is_s2,
+                "current-skip-tokens-are-words-of-the-dictionary": has_bar and not has_foo}
+
+
+CONTRACTS += [get_dictionary_current_settings]
